@@ -35,23 +35,20 @@ SPEC = {
                 'ChainSupport / home chain answers, NextSeqNum and CommitReportsGTETimestamp are oracles (scripted fakes)',
                 'report codec decode results (JSON mock codec of the repository)'],
     'assumptions': ['libocr calls the callbacks one at a time per instance; curse state is whatever the reader returns at each call'],
-    'level_text': 'Proof: 32 closed Coq theorems. 20 property theorems: the subject encoding of a chain is injective and never the global subject (C15_subject_injective, '
-                  '_not_global); a source is cursed iff it was asked about and its own subject is set, the destination iff its or the global subject, unrelated subjects '
-                  'change nothing (C15_source_cursed_iff, _dest_, _global_, C15_unrelated_subjects); no off-ramp numbers (commit) and no commit reports (execute) are '
-                  'observed under a global or destination curse or a failing curse read (C15_no_observe_commit / _exec); a cursed source is absent from both '
-                  'observations, every other known source stays, and exactly the non-cursed known sources are observed (C15_source_left_out_*, C15_observed_sources_*, '
-                  'C15_observes_exactly_commit, C15_other_sources_kept_exec); a report with roots / chain reports is never accepted under a global, destination or '
-                  'named-source curse or a reader failure, and the curse step refuses nothing else (C15_accept_commit / _exec, _unaffected). Unrepaired code refuted: '
-                  'C15_source_left_out_exec_unfixed_refuted (F30: execute asked about known sources only, a cursed chain outside that list kept its reports; repaired in '
-                  "/repo). Judge soundness (12 C15_judge_*): for each judge the executable property accepts the model's output and implies the Prop-level clauses (four "
-                  'judges were strengthened from "curse state only"). Correspondence, every run: the real getCurseInfoFromCursedSubjects + NonCursedSourceChains on '
-                  'near-miss subject sets; ObserveOffRampNextSeqNums, getCommitReportsObservation and both ShouldAcceptAttestedReport under scripted remotes, error kinds '
-                  'and states of the REAL ccipChainReader, one instance receiving 1..4 calls while the remote changes; the REAL commit.Plugin and execute.Plugin '
-                  '(NewPlugin) running one or two full cycles with Observation in every state while the curse state changes before every round, previous outcomes '
-                  'carrying leftovers, and the resulting report presented to ShouldAccept (C15_cyc_*). Translation tie (3 theorems, C15_gen.v): chainSelectorToBytes16 '
-                  're-translated from source; injectivity and not-global restated over it. Partial: building / GetMessages / Filter phases observe without a curse '
-                  're-check, as coded (acceptance stops such a report); the observed numbers themselves, the order of the non-cursed list and callback errors are '
-                  'compared with the model only; that a cursed source is absent from outcomes rests on C02.',
+    'level_text': 'Proof: 32 closed Coq theorems. 20 property theorems: the subject encoding of a chain is injective and never the global subject; a source is cursed iff '
+                  'it was asked about and its own subject is set, the destination iff its or the global subject, unrelated subjects change nothing (C15_*_cursed_iff, '
+                  'C15_unrelated_subjects); no off-ramp numbers (commit) and no commit reports (execute) are observed under a global or destination curse or a failing '
+                  'curse read (C15_no_observe_*); a cursed source is absent from both observations, every other known source stays, exactly the non-cursed known sources '
+                  'are observed (C15_source_left_out_*, C15_observed_sources_*, C15_observes_exactly_commit); a report with roots / chain reports is never accepted under '
+                  'a global, destination or named-source curse or a reader failure, and the curse step refuses nothing else (C15_accept_*). Unrepaired code refuted: '
+                  'C15_source_left_out_exec_unfixed_refuted (F30: a cursed chain outside the known-source list kept its reports; repaired in /repo). Judge soundness (12 '
+                  "C15_judge_*): for each judge the executable property accepts the model's output and implies the Prop-level clauses. Correspondence, every run: the "
+                  'real getCurseInfoFromCursedSubjects + NonCursedSourceChains on near-miss subject sets; ObserveOffRampNextSeqNums, getCommitReportsObservation and both '
+                  'ShouldAcceptAttestedReport under scripted remotes and states of the REAL ccipChainReader, one instance receiving 1..4 calls while the remote changes; '
+                  'the REAL commit.Plugin and execute.Plugin (NewPlugin) running one or two full cycles with Observation in every state while the curse state changes '
+                  'before every round, previous outcomes carrying leftovers, the resulting report presented to ShouldAccept (C15_cyc_*). Translation tie (3 theorems, '
+                  'C15_gen.v): chainSelectorToBytes16. Partial: building / GetMessages / Filter phases observe without a curse re-check, as coded (acceptance stops such '
+                  'a report); that a cursed source is absent from outcomes rests on C02.',
     'level_note': 'Trusted: Coq kernel, hand-written model and theorem statements, differential harness, leaf translator. Specific: the chain-level contract reader below '
                   'ccipChainReader is a scripted facade (two fifths of the plugin-level curse reads go through the real ccipChainReader.GetRmnCurseInfo, the rest through '
                   'a fake that answers like it); ChainSupport / home chain answers, NextSeqNum and CommitReportsGTETimestamp are scripted oracles; report decoding is the '
